@@ -18,3 +18,152 @@ def db(iface):
 def db_same(iface):
     d = db(iface)
     return (d._next_id == old(d._next_id) and map_has(d.database, old(K(d))) == old(map_has(d.database, K(d))))
+
+
+# ---- C13: the meaning of a filter, written from EN 302 895 (one or two comparisons joined by and / or; an object
+#      lacking the attribute does not match) ----
+
+def attribute_of(record, path):
+    """value of the dotted attribute path inside the record's message, or None if any component is missing"""
+    cur = record['dataObject']
+    for key in path.split('.'):
+        if not isinstance(cur, dict) or key not in cur:
+            return None
+        cur = cur[key]
+    return cur
+
+
+def compare(value, op, ref):
+    if op == 0:
+        return value == ref
+    if op == 1:
+        return value != ref
+    if op == 2:
+        return value > ref
+    if op == 3:
+        return value < ref
+    if op == 4:
+        return value >= ref
+    if op == 5:
+        return value <= ref
+    if op == 6:
+        return False        # like: substring / element containment; numbers contain nothing
+    return True             # notlike
+
+
+def statement_matches(record, st):
+    v = attribute_of(record, st.attribute)
+    return v is not None and compare(v, st.operator.value, st.ref_value)
+
+
+def filter_matches(record, f):
+    if f.filter_statement_2 is None:
+        return statement_matches(record, f.filter_statement_1)
+    if f.logical_operator.value == 0:
+        return statement_matches(record, f.filter_statement_1) and statement_matches(record, f.filter_statement_2)
+    return statement_matches(record, f.filter_statement_1) or statement_matches(record, f.filter_statement_2)
+
+
+def n_matching(database, f):
+    """number of matching objects of a store of at most two objects (the bound of the C13 contracts)"""
+    n = 0
+    if len(database) > 0 and filter_matches(database[0], f):
+        n = n + 1
+    if len(database) > 1 and filter_matches(database[1], f):
+        n = n + 1
+    return n
+
+
+# ---- C13: the same filter over ONE ARBITRARY TinyDB document (models_tinydb): the attribute path is relative to the
+#      stored message, i.e. below 'dataObject'; a document lacking the path does not match ----
+
+def tinydb_statement_matches(st):
+    path = 'dataObject.' + st.attribute
+    return model('doc_exists', path) and compare(model('doc_value', path), st.operator.value, st.ref_value)
+
+
+def tinydb_filter_matches(f):
+    if f.filter_statement_2 is None:
+        return tinydb_statement_matches(f.filter_statement_1)
+    if f.logical_operator.value == 0:
+        return tinydb_statement_matches(f.filter_statement_1) and tinydb_statement_matches(f.filter_statement_2)
+    return tinydb_statement_matches(f.filter_statement_1) or tinydb_statement_matches(f.filter_statement_2)
+
+
+# ---- C14: notification cadence at the LDM's one-second clock ----
+
+def its_now():
+    """the LDM clock: whole UTC seconds expressed as an ITS timestamp in milliseconds"""
+    return (int(now()) - 1072915200 + 5) * 1000
+
+
+def previous_notification(svc, subscription):
+    """time of the previous notification (or of the subscription) of `subscription`; the current time if none is recorded"""
+    m = svc.last_checked_subscriptions_time
+    return old(map_get(m, subscription).timestamp_its) if old(map_has(m, subscription)) else its_now()
+
+
+def interval_passed(svc, subscription):
+    nt = subscription.subscription_request.notify_time
+    return nt is None or previous_notification(svc, subscription) + nt.timestamp_its <= its_now()
+
+
+def old_subscriptions(svc):
+    """snapshot (element values) of the subscription list at entry; lists of at most two subscriptions"""
+    n = old(len(svc.subscriptions))
+    out = []
+    if n > 0:
+        out = out + [old(svc.subscriptions[0])]
+    if n > 1:
+        out = out + [old(svc.subscriptions[1])]
+    return out
+
+
+def count_of(items, x):
+    return len([i for i in items if i == x])
+
+
+def request_of(req, subscription):
+    """the data request handed to the store carries the subscription's own selection"""
+    s = subscription.subscription_request
+    return (req.application_id == s.application_id and req.data_object_type == s.data_object_type and req.priority == s.priority
+            and req.order == s.order and req.filter == s.filter)
+
+
+def due(svc, i):
+    """subscription i (of the list at entry) must be served now: its consumer is still registered and its search
+    returned at least one object and at least `multiplicity` objects"""
+    s = old_subscriptions(svc)[i].subscription_request
+    found = ghost('searches')[i][1]
+    return (len(found) > 0 and (s.multiplicity is None or s.multiplicity <= len(found))
+            and old(set_has(svc.data_consumer_its_aid, s.application_id)))
+
+
+def n_due(svc):
+    n = 0
+    if old(len(svc.subscriptions)) > 0 and due(svc, 0):
+        n = n + 1
+    if old(len(svc.subscriptions)) > 1 and due(svc, 1):
+        n = n + 1
+    return n
+
+
+# ---- C13 / C14: requested order: by the first attribute in its direction, ties by the next one, and so on ----
+
+def order_key(record, attr):
+    return record['dataObject']['cam'][attr]
+
+
+def in_requested_order(x, y, orders):
+    """x may come before y"""
+    a0 = order_key(x, orders[0].attribute)
+    b0 = order_key(y, orders[0].attribute)
+    if a0 != b0:
+        return a0 < b0 if orders[0].ordering_direction.value == 0 else a0 > b0
+    if len(orders) == 1:
+        return True
+    a1 = order_key(x, orders[1].attribute)
+    b1 = order_key(y, orders[1].attribute)
+    if a1 != b1:
+        return a1 < b1 if orders[1].ordering_direction.value == 0 else a1 > b1
+    return True
